@@ -24,15 +24,18 @@ MODELLED_NOT_VERIFIED = [
     "C07: RNG draws of randomly_reorient/randomly_rotate are recorded from the implementation (scripted rng) and replayed into the model",
     "C07: floating point is not modelled; all generated lengths are dyadic so that every sum, difference and halving is exact",
 ]
-EXPLANATION = ("Theorems (Props/C07.lean, about the definitions drv_c07 runs): invert_is_chain (the inversion loop of reseed_at is a chain of "
-               "single root inversions) and reseed_invariant / reroot_at_node_invariant (for every tree with a non-unary seed, every internal "
-               "target and flag: leaves, total length and every leaf-to-leaf path length are kept, exact rationals, None = 0; stated for the "
-               "inversion chain, i.e. collapse/suppress switched off); reseed_root_is_target (the requested node is the root and the seed's own "
-               "edge length travels with it); inversion_step_keeps_unrooted_splits_partial (one inversion keeps the normalised split set; chain "
-               "not assembled); midpoint_walk_spec_partial (the walk stops exactly at half the distance, at the TAIL node on equality); "
-               "outgroup_first; rooting-flag specs for soft and hard operations; ladderize/reorder/rotate_invariant_partial (leaves and total "
-               "length; path lengths under child permutations not proved). Not proved, covered by correspondence + oracle only: the clean-up "
-               "steps (basal collapse, unifurcation suppression) keep path lengths; reroot_at_edge distances; equidistance after midpoint rooting.")
+EXPLANATION = ("Theorems (Props/C07.lean, about the definitions drv_c07 runs): reseed_invariant_full / reroot_at_node_invariant_full: for EVERY "
+               "setting of collapse_unrooted_basal_bifurcation and suppress_unifurcations (defaults included), every flag, every tree with a "
+               "non-unary seed, distinct leaf ids and well-formed fractions, and every internal target: leaf ids, total length and every "
+               "leaf-to-leaf path length are kept (exact rationals, None = 0) - by invert_is_chain (the inversion loop is a chain of single "
+               "root inversions), Theory/C07Path.invert_dist, and the clean-up lemmas sup_inv / collapse_inv; reseed_root_is_target / "
+               "reseed_at_root_is_target / reseed_root_shape (new root = target's own children, then the old parent LAST carrying the target's "
+               "old edge length); inversion_step_keeps_unrooted_splits_partial (one inversion keeps the normalised split set; chain not "
+               "assembled); midpoint_walk_spec_partial (the walk stops exactly at half the distance, at the TAIL node on equality; not assembled "
+               "into equidistance of rerootAtMidpoint); outgroup_first (suppress off); rooting-flag theorems for reseed, outgroup, reorient "
+               "(content) and the three hard ops (definitional); ladderize/reorder/rotate_invariant_partial (leaves and total; path lengths "
+               "under child permutation not proved). Not proved, covered by correspondence + oracle only: invariance and the two distances of "
+               "reroot_at_edge, invariance of to_outgroup_position and midpoint rooting, split sets of whole operations, leaf targets, unary seeds.")
 
 SOFT = {"reseed", "outgroup", "reorient", "rotate", "ladderize", "reorder"}
 HARD = {"rerootnode", "rerootedge", "midpoint"}
@@ -454,6 +457,19 @@ def run_impl(dendropy, case, tree, ids):
 
 
 # ------------------------------------------------------------------ oracle
+def flag_clause(case, flag_after):
+    """(e) soft operations leave the rooting flag as it was, hard ones set it"""
+    f0 = FLAGS[case["flag"]]
+    if case["op"] in HARD:
+        if flag_after is not True:
+            return [("rooting_flag", "hard re-rooting left is_rooted = %r" % (flag_after,))]
+        return []
+    okflag = flag_after is f0 or (f0 is None and flag_after is False)
+    if not okflag:
+        return [("rooting_flag", "soft operation changed is_rooted from %r to %r" % (f0, flag_after))]
+    return []
+
+
 def oracle(ctx, case, before, after, after_problems, tree, ids, flag_after, n_before):
     """the statement, evaluated on the snapshots. returns list of (kind, what)"""
     op, a = case["op"], case["args"]
@@ -474,6 +490,25 @@ def oracle(ctx, case, before, after, after_problems, tree, ids, flag_after, n_be
             out.append(("leafset", "leaf target %d: other leaves changed: before %s after %s" % (weak, sorted(ob.leaves), sorted(oa.leaves))))
         elif oa.splits != ob.splits:
             out.append(("splits", "leaf target %d: unrooted splits of the other leaves changed" % weak))
+        else:
+            # everything the statement says about the REST of the tree still has to hold: paths among the other leaves,
+            # the total length minus the one pendant edge that the documented-domain note concedes, Tree.length(), the flag
+            for key, d in ob.paths.items():
+                if oa.paths.get(key) != d:
+                    out.append(("path_length", "leaf target %d: path %d-%d between other leaves: %s, expected %s" % (
+                        weak, key[0], key[1], oa.paths.get(key), d)))
+                    break
+            want_total = ob.total - before.length[weak]
+            if oa.total != want_total:
+                out.append(("total_length", "leaf target %d: total length %s, expected %s (all edges but the target's pendant edge)" % (
+                    weak, oa.total, want_total)))
+            try:
+                tl = Fraction(tree.length())
+            except Exception as e:      # noqa
+                tl = "raised %s" % type(e).__name__
+            if tl != oa.total:
+                out.append(("total_length", "Tree.length() = %s, sum over the edges of the result = %s" % (tl, oa.total)))
+        out.extend(flag_clause(case, flag_after))
         return out, ob, oa
     oa = Obs(after)
     if oa.leaves != ob.leaves:
@@ -566,15 +601,7 @@ def oracle(ctx, case, before, after, after_problems, tree, ids, flag_after, n_be
                 out.append(("outgroup_first", "first child of the root spans leaves %s, the outgroup spans %s" % (sorted(first), sorted(want))))
             elif og in after.children and kids[0] != og and len(before.children[og]) != 1:
                 out.append(("outgroup_first", "the outgroup node %d is not the first child of the root (first is %d)" % (og, kids[0])))
-    # --- (e) rooting flag
-    f0 = FLAGS[case["flag"]]
-    if op in HARD:
-        if flag_after is not True:
-            out.append(("rooting_flag", "hard re-rooting left is_rooted = %r" % (flag_after,)))
-    else:
-        okflag = flag_after is f0 or (f0 is None and flag_after is False)
-        if not okflag:
-            out.append(("rooting_flag", "soft operation changed is_rooted from %r to %r" % (f0, flag_after)))
+    out.extend(flag_clause(case, flag_after))
     return out, ob, oa
 
 
@@ -728,14 +755,15 @@ def exhaustive(ctx, dendropy, pending):
             snap = snap_from_tokens(toks)
             nodes = snap.nodes()
             nleaves = len([v for v in nodes if not snap.children[v]])
-            for flag in ("R", "U"):
+            for flag in ("R", "U", "N"):
                 base = {"tree": toks, "flag": flag, "nbits": nbits}
                 cases = []
                 for v in nodes:
                     for sup in (True, False):
                         for col in (True, False):
                             cases.append(dict(base, op="reseed", args={"tgt": v, "collapse": col, "suppress": sup, "upd": False}))
-                        cases.append(dict(base, op="rerootnode", args={"tgt": v, "collapse": True, "suppress": sup, "upd": sup}))
+                        cases.append(dict(base, op="rerootnode", args={"tgt": v, "collapse": sup, "suppress": sup, "upd": sup}))
+                        cases.append(dict(base, op="rerootnode", args={"tgt": v, "collapse": not sup, "suppress": sup, "upd": True}))
                         if v != snap.root:
                             cases.append(dict(base, op="outgroup", args={"og": v, "suppress": sup, "upd": False}))
                             L = snap.length[v]
@@ -744,9 +772,16 @@ def exhaustive(ctx, dendropy, pending):
                                                                                "l1": tu.frac(l1), "l2": tu.frac(l2)}))
                 if nleaves >= 2:
                     for sup in (True, False):
-                        cases.append(dict(base, op="midpoint", args={"suppress": sup, "collapse": True, "upd": False}))
+                        for col in (True, False):
+                            cases.append(dict(base, op="midpoint", args={"suppress": sup, "collapse": col, "upd": col != sup}))
                 cases.append(dict(base, op="ladderize", args={"asc": True}))
                 cases.append(dict(base, op="ladderize", args={"asc": False}))
+                for asc in (True, False):
+                    cases.append(dict(base, op="reorder", args={"asc": asc, "labels": gen_labels(rng, nbits)}))
+                # random re-orientation / rotation: as many scripted draws as there are nodes (every node gets picked often)
+                for _ in range(len(nodes)):
+                    cases.append(dict(base, op="reorient", args={"rseed": rng.randrange(1 << 30), "upd": rng.random() < 0.3}))
+                cases.append(dict(base, op="rotate", args={"rseed": rng.randrange(1 << 30)}))
                 for c in cases:
                     one_case(ctx, dendropy, c, pending, kind="exh-" + c["op"])
                     count += 1
@@ -754,8 +789,9 @@ def exhaustive(ctx, dendropy, pending):
                     flush(ctx, pending)
     flush(ctx, pending)
     ctx.extra["exhaustive_small_scope"] = ("%d cases: %d shapes (all <= 6 leaves + unary-seed/unary-child variants) x {unit, ultrametric, 0/1, None} "
-                                           "lengths x {rooted, unrooted} x every node as reseed/reroot target (all flag settings), every "
-                                           "non-seed node as outgroup and as edge (3 length splits), midpoint, ladderize" % (count, len(shapes)))
+                                           "lengths x {rooted, unrooted, undefined} x every node as reseed/reroot target (all flag settings), every "
+                                           "non-seed node as outgroup and as edge (3 length splits), midpoint (all flag settings), ladderize, "
+                                           "reorder, one scripted reorient per node, rotate" % (count, len(shapes)))
 
 
 WEIGHTS = [("reseed", 22), ("rerootnode", 10), ("rerootedge", 14), ("midpoint", 20), ("outgroup", 12), ("reorient", 8),
@@ -770,7 +806,7 @@ def run(ctx):
     ncases = ctx.pick(16000, 200000)
     max_leaves = ctx.pick(10, 30)
     ops = [o for o, w in WEIGHTS for _ in range(w)]
-    random_budget = ctx.pick(30, 300)
+    random_budget = ctx.pick(30, 240)
     import time
     t0 = time.time()
     for k in range(ncases):
